@@ -61,6 +61,8 @@ type Run struct {
 	cliCalls                   StrV
 	cliOut                     StrV
 	cliLibFailed, cliRunFailed bool
+	cliStdoutFailed            bool
+	cliStdout                  StrV
 	ctxLabel                   string
 	symbols                    []*Term // every fresh symbol created on this path, in creation order
 	observed                   []obs
